@@ -178,6 +178,25 @@ CLAIMED['C16'] = dict(
          'length <= 4 against a refusing port on the real Connection, and one live loopback scenario with real threads.',
     design='§6 C16')
 
+CLAIMED['C09'] = dict(
+    text='Executed symbolically from the real source: (i) Connection.__init__ accepts an initial version number iff it is '
+         'supported, for EVERY integer, resolves names, and picks the chronologically latest allowed version as default; '
+         '(ii) PlayingStatusReactor.handle_status/handle_exception and _version_mismatch for an ARBITRARY server protocol '
+         'number, an abstract allowed set and every status shape: empty object rejected, missing version/protocol -> '
+         'allowed := {default} and reconnect, allowed number -> allowed := {server number} and reconnect, otherwise '
+         'VersionMismatch whose message contains the decimal number and ends with the correct verdict (unsupported iff not in '
+         'the supported list), EOFError -> immediate disconnect + same fallback, other exceptions not swallowed; (iii) '
+         'connect() for every singleton of a supported version and three larger sets, symbolic host/port/user: queue = '
+         '[Handshake(chosen, host, port, 2), LoginStart(profile or user)] with the login reactor, or [Handshake(.., 1), '
+         'Request] with the playing-status reactor, order check -> transport -> thread start; (iv) status() in all 9 handler '
+         'modes: handler called once with the parsed object, ping queued iff requested, non-negative latency for a monotone '
+         'timer, disconnect on every terminating path.',
+    note='Trusted: C16 contracts of _connect/_start_network_thread/_check_connection (abstracted here), json.loads and '
+         'timeit.default_timer models, z3 string theory for message obligations. The exit callback after a status query is the '
+         '_handle_exit obligation of C11. Bounded: all known numbers/names through the real constructor, real handle_status grid, '
+         'real connect() queue shapes.',
+    design='§6 C09')
+
 PLANNED = {
     'C01': 'check not built yet (DESIGN §6 C01): frame contracts on Packet.write/_write_buffer/read_packet',
     'C02': 'check not built yet (DESIGN §6 C02)',
